@@ -2,6 +2,7 @@
 from __future__ import annotations
 
 import io
+import math
 import random
 import struct
 
@@ -282,9 +283,14 @@ def _scalars(bp, res: Result, shard):
                     continue
                 vals = [norm_leaf(fi.kind, v) for v in scalar_bounds(fi.kind)]
                 vals += [norm_leaf(fi.kind, rand_scalar(rng, fi.kind)) for _ in range(shard["n"])]
-                for v in vals:
+                if fi.kind in ("float", "double"):
+                    # +0.0 first, then -0.0 (equal and equally hashed, other bytes), then +0.0 again -- given raw, the
+                    # value normaliser of the other checks folds the two zeros together
+                    vals = [0.0, -0.0, 0.0, -0.0] + vals
+                for vi, v in enumerate(vals):
+                    negzero = isinstance(v, float) and v == 0 and math.copysign(1.0, v) < 0
                     tree = {fi.number: [v, v] if label == "repeated" else v}
-                    if label == "singular":
+                    if label == "singular" and not negzero:
                         from ..values import canon
                         tree = canon(b, mi, tree)
                     m = bpk.make(mi, tree)
@@ -306,7 +312,7 @@ def _scalars(bp, res: Result, shard):
                     res.case(f"{fi.kind}/{label}/{v!r}")
                     if got != ref or got != exp:
                         # NaN payload bits may legitimately differ only if python changes them; compare exactly anyway
-                        res.violation("scalar-bytes", [fi.kind, label, "bytes-differ"],
+                        res.violation("scalar-bytes", [fi.kind, label, "negative-zero-omitted" if (negzero and got == b"") else ("negative-zero" if negzero else "bytes-differ")],
                                       f"{fi.kind} {label} value {v!r}: betterproto {got.hex()} reference {ref.hex()} spec {exp.hex()}",
                                       {"kind": "scalar", "msg": mname, "number": fi.number, "label": label,
                                        "value": _enc(v)})
@@ -347,13 +353,18 @@ def replay(w):
             v = tree_from_json(w["value"])
             if isinstance(v, float) and v != v:
                 v = NAN
+            negzero = isinstance(v, float) and v == 0 and math.copysign(1.0, v) < 0
             tree = {fi.number: [v, v] if w["label"] == "repeated" else v}
-            if w["label"] == "singular":
+            if w["label"] == "singular" and not negzero:
                 tree = canon(b, mi, tree)
-            got = bytes(BP(b).make(mi, tree))
+            bpk = BP(b)
+            if negzero:
+                bytes(bpk.make(mi, {fi.number: [0.0] if w["label"] == "repeated" else 0.0}))  # +0.0 goes first, as in the run
+            got = bytes(bpk.make(mi, tree))
             ref = REF(b).make(mi, tree).SerializeToString()
             if got != ref:
-                res.violation("scalar-bytes", [fi.kind, w["label"], "bytes-differ"], f"{got.hex()} vs {ref.hex()}", w)
+                res.violation("scalar-bytes", [fi.kind, w["label"], "negative-zero-omitted" if (negzero and got == b"") else ("negative-zero" if negzero else "bytes-differ")],
+                              f"{got.hex()} vs {ref.hex()}", w)
         finally:
             b.cleanup()
     return res.violations
